@@ -15,6 +15,12 @@ use crate::{rng, shrink};
 pub const DEFAULT_SEED: u64 = 20_250_925;
 pub const VERIF: &str = "/verif";
 
+/// Where evidence and replay files go (overridden when the harness itself is being tested against a
+/// modified copy of the repository, so that /verif is not touched).
+pub fn out_dir() -> String {
+    std::env::var("VERIF_OUT").unwrap_or_else(|_| VERIF.to_string())
+}
+
 #[derive(Serialize, Deserialize, Clone, Debug)]
 pub struct Replay {
     pub property: String,
@@ -241,7 +247,7 @@ pub fn replay<E: Engine>(r: &Replay) -> i32 {
 }
 
 pub fn write_replay(r: &Replay) -> String {
-    let dir = format!("{VERIF}/replays");
+    let dir = format!("{}/replays", out_dir());
     let _ = std::fs::create_dir_all(&dir);
     let path = format!("{dir}/{}-{}-{}.json", r.property, r.seed, r.index);
     std::fs::write(&path, serde_json::to_string_pretty(r).unwrap()).expect("write replay");
@@ -249,7 +255,7 @@ pub fn write_replay(r: &Replay) -> String {
 }
 
 pub fn write_evidence(prop: &str, ev: &serde_json::Value) {
-    let dir = format!("{VERIF}/evidence");
+    let dir = format!("{}/evidence", out_dir());
     let _ = std::fs::create_dir_all(&dir);
     let path = format!("{dir}/{prop}.json");
     std::fs::write(&path, serde_json::to_string_pretty(ev).unwrap()).expect("write evidence");
